@@ -23,6 +23,7 @@ SIG_F3 = 'gridding-zero-length-segment-fraction-zero'
 SIG_F20 = 'gridding-index-minus-one-wraps-to-last-grid-value'
 SIG_DL = 'gridding-antimeridian-met-at-start-latitude'
 SIG_Z = 'gridding-zero-length-antimeridian-segment-nan'
+SIG_POLE = 'gridding-pole-intersection-latitude-out-of-range-nan'
 
 PI = math.pi
 LAT_MAX = 1.55        # generated latitudes stay within +-88.8 degrees
@@ -44,8 +45,10 @@ def geod():
     return _GEOD
 
 
-def dist_many(a, b):
-    """WGS-84 geodesic distances between point lists a, b of (lat, lon) in radians (the oracle for `dist`)."""
+def dist_many(a, b, clip=False):
+    """WGS-84 geodesic distances between point lists a, b of (lat, lon) in radians (the oracle for `dist`).
+    clip=True: latitudes are clipped to [-pi/2, pi/2] first (what the tree does once FC04c is repaired; `dist` of the
+    model is then this composite, still a pseudo-metric)."""
     import numpy as np
     if not a:
         return []
@@ -53,6 +56,8 @@ def dist_many(a, b):
     lo = np.array([p[1] for p in a], float)
     lb = np.array([p[0] for p in b], float)
     lob = np.array([p[1] for p in b], float)
+    if clip:
+        la, lb = np.clip(la, -np.pi / 2, np.pi / 2), np.clip(lb, -np.pi / 2, np.pi / 2)
     return [float(x) for x in np.atleast_1d(geod().inv(lo, la, lob, lb, radians=True)[2])]
 
 
@@ -71,24 +76,57 @@ def gridder(case):
                    None if case['gtime'] is None else np.array(case['gtime'], float))
 
 
-def run_impl(case, states, ints):
-    """Gridder.grid_trajectory on the case with the given state / integrated variables -> plain lists."""
+TWIN = 'cells_touched_by_trajectory_with_state_and_integrated_variables'
+
+
+def run_impl(case, states, ints, entry='grid_trajectory', g=None, dtype=None, coord_dtype=None, time_unit=None):
+    """One public entry point of Gridder on the case with the given state / integrated variables -> plain lists.
+
+    g           reuse this Gridder (state carried between calls would show)
+    dtype       pass altitudes / times / variables as arrays of this dtype (holding the same numbers)
+    coord_dtype pass latitudes / longitudes as arrays of this dtype
+    time_unit   'ms': grid times and times are passed as datetime64[ms] (values must be whole numbers)
+    Raises AssertionError('mutated ...') if the call changed any of its inputs or the grid arrays."""
     import warnings
 
     import numpy as np
-    g = gridder(case)
+    g = g or gridder(case)
+    vt = dtype or float
+    ct = coord_dtype or float
+    arrs = {'lats': np.array(case['lats'], ct), 'lons': np.array(case['lons'], ct),
+            'alts': None if case['alts'] is None else np.array(case['alts'], vt),
+            'times': None if case['times'] is None else np.array(case['times'], vt)}
+    if time_unit:
+        g = gridder(case)
+        g.grid_times = np.array(case['gtime'], 'int64').astype(f'datetime64[{time_unit}]')
+        arrs['times'] = np.array(case['times'], 'int64').astype(f'datetime64[{time_unit}]')
+    sts = tuple(np.array(s_, vt) for s_ in states)
+    ivs = tuple(np.array(v, vt) for v in ints)
+    watched = [x for x in list(arrs.values()) + list(sts) + list(ivs)
+               + [g.grid_latitudes, g.grid_longitudes, g.grid_altitudes, g.grid_times] if x is not None]
+    before = [x.copy() for x in watched]
     with warnings.catch_warnings():
         warnings.simplefilter('ignore')
-        out = g.grid_trajectory(
-            np.array(case['lats'], float), np.array(case['lons'], float),
-            None if case['alts'] is None else np.array(case['alts'], float),
-            None if case['times'] is None else np.array(case['times'], float),
-            tuple(np.array(s, float) for s in states), tuple(np.array(v, float) for v in ints))
+        out = getattr(g, entry)(arrs['lats'], arrs['lons'], arrs['alts'], arrs['times'], sts, ivs)
+    for x, y in zip(watched, before):
+        if not (x.shape == y.shape and x.dtype == y.dtype and np.array_equal(x, y)):
+            raise AssertionError('mutated: the call changed one of its input arrays or a grid array')
 
-    def lst(a):
-        return None if a is None else [float(x) for x in np.asarray(a).ravel()]
+    def lst(a_):
+        if a_ is None:
+            return None
+        a_ = np.asarray(a_).ravel()
+        if a_.dtype.kind == 'M':
+            return [float(x) for x in a_.astype('int64')]
+        return [float(x) for x in a_]
+    if out[0] is None:        # the twin's answer to more than one crossing
+        return {'lat': None, 'lon': None, 'alt': None, 'time': None, 'states': None, 'ints': None}
     return {'lat': lst(out[0]), 'lon': lst(out[1]), 'alt': lst(out[2]), 'time': lst(out[3]),
-            'states': [lst(s) for s in out[4]], 'ints': [lst(v) for v in out[5]]}
+            'states': [lst(s_) for s_ in out[4]], 'ints': [lst(v) for v in out[5]]}
+
+
+def same_out(a_, b_):
+    return json.dumps(a_) == json.dumps(b_)       # NaN-tolerant equality of plain outputs
 
 
 def instrumented(case):
@@ -105,14 +143,14 @@ def inst_ints(case):
     return instrumented(case)[1]
 
 
-def detect_flags(chk=None):
+def detect_flags(entry='grid_trajectory'):
     """Which of the four repairable behaviours does the tree under check have?  (clamp, fix3, fixdl, fixz).
     A probe that crashes counts as "as coded"; the crash itself is reported by the cases."""
     base = {'galt': None, 'gtime': None, 'alts': None, 'times': None}
 
     def probe(case, ints, pred):
         try:
-            return bool(pred(run_impl(case, [], ints)))
+            return bool(pred(run_impl(case, [], ints, entry=entry)))
         except Exception:  # noqa: BLE001
             return False
     c3 = dict(base, glat=[0.0, 1.0], glon=[0.0, 1.0], lats=[0.5, 0.5], lons=[0.5, 0.5])
@@ -124,7 +162,9 @@ def detect_flags(chk=None):
     fixdl = probe(cdl, [], lambda o: any(lo == 0.0 and la == 0.1 for la, lo in zip(o['lat'], o['lon'])))
     cz = dict(base, glat=[0.0, 1.0], glon=[-PI, 0.0, PI], lats=[0.5, 0.5], lons=[-PI, PI])
     fixz = probe(cz, [[1.0]], lambda o: all(x == x for x in o['ints'][0]))
-    return {'clamp': clamp, 'fix3': fix3, 'fixdl': fixdl, 'fixz': fixz}
+    cp = json.loads((VERIF / 'corpus/C04/fc04c_pole_on_longitude_line.json').read_text())['case']
+    clipd = probe(cp, [[1.0]], lambda o: all(x == x for x in o['ints'][0]))
+    return {'clamp': clamp, 'fix3': fix3, 'fixdl': fixdl, 'fixz': fixz, 'clipd': clipd}
 
 
 # ----------------------------------------------------------------------------------------------
@@ -164,7 +204,7 @@ def parse_geometry(val):
     return out
 
 
-def attach_dists(geo):
+def attach_dists(geo, clip=False):
     """Python mirror of C04_Model.attach_dists with dist := pyproj: per part, per segment (D, [d...])."""
     dds = []
     for p in geo['parts']:
@@ -177,7 +217,7 @@ def attach_dists(geo):
                 a.append(x)
                 b.append(y)
                 owner.append((k, 'd'))
-        ds = dist_many(a, b)
+        ds = dist_many(a, b, clip)
         dd = [[None, []] for _ in p['geom']]
         for (k, kind), d in zip(owner, ds):
             if kind == 'D':
@@ -339,16 +379,24 @@ def c04_oracle(case, out):
     probs = []
     blocks, nan_pieces = blocks_by_ratio(out, nseg)
     zero_crossing = [j for j in range(nseg) if len(legs_of_segment(case, j)) == 2 and expected_segment(case, j)[1] == 0]
+    polar = [j for j in range(nseg) if abs(case['lats'][j]) == PI / 2 or abs(case['lats'][j + 1]) == PI / 2]
+    pole_nan = set()
     if nan_pieces and blocks is not None:
+        tags = out['states'][-1]
+        owners = {int(round(tags[p])) for p in nan_pieces if tags[p] == tags[p]}
         if len(zero_crossing) == 1:
             blocks[zero_crossing[0]] += nan_pieces      # as-coded pattern of FC04a: 0/0 in the split
+        elif owners and owners <= set(polar):
+            for p in nan_pieces:                        # as-coded pattern of FC04c: a segment touching a pole
+                blocks[int(round(tags[p]))].append(p)
+            pole_nan = owners
         else:
             blocks = None
     L = len(out['lat'])
     for v in ints:
         if len(v) != L:
             return [(f'integrated output has length {len(v)}, cells {L}', None)]
-    f3_hits, z_hits, other = [], [], []
+    f3_hits, z_hits, p_hits, other = [], [], [], []
     tot_impl = [0.0] * len(ints)
     tot_want_lo = [0.0] * len(ints)
     if blocks is None:
@@ -384,16 +432,23 @@ def c04_oracle(case, out):
                         other.append(f'segment {j} (zero length) variable {k}: pieces sum to {got!r}, value {vj!r}')
                 continue
             ok = any(e is not None and close(got, vj * e, rel=1e-9, abs_=1e-300) for e in Es)
-            if not ok:
+            if not ok and got != got and j in pole_nan:
+                p_hits.append((j, k, vj))
+            elif not ok:
                 other.append(f'segment {j} variable {k}: pieces sum to {got!r}, expected value*{Es[0]!r} = {vj * Es[0]!r}')
             elif vj >= 0 and got < vj * (1 - 1e-12):
                 other.append(f'segment {j} variable {k}: pieces sum to {got!r} < segment value {vj!r}')
     for k in range(len(ints)):
-        if all(x >= 0 for x in inst_ints(case)[k]) and not f3_hits and not z_hits:
+        if all(x >= 0 for x in inst_ints(case)[k]) and not f3_hits and not z_hits and not p_hits:
             if tot_impl[k] < tot_want_lo[k] * (1 - 1e-12):
                 other.append(f'variable {k}: gridded total {tot_impl[k]!r} < trajectory total {tot_want_lo[k]!r}')
     for o in other:
         probs.append((o, None))
+    if p_hits:
+        j, k, vj = p_hits[0]
+        probs.append((f'segment {j} has an end point exactly on a pole: an intersection latitude computed from '
+                      f'slope/intercept leaves [-90, 90] degrees by rounding, the geodesic length is NaN and the value '
+                      f'{vj!r} of variable {k} is gridded to NaN', SIG_POLE if not other else None))
     if z_hits:
         j, k, vj = z_hits[0]
         probs.append((f'zero-length segment {j} across the antimeridian (same point given as -pi and +pi) variable {k}: '
@@ -485,6 +540,9 @@ def gen_case(rng):
     dateline = rng.random() < 0.18
     glat, glon, galt, gtime = gen_grid(rng, dateline)
     npts = rng.randint(2, 9)
+    # exact poles: a deliberate, separately counted stream (kind 'pole'): all longitudes are one point there
+    polar = rng.random() < 0.06 and (glat[0] <= -PI / 2 or glat[-1] >= PI / 2)
+    lat_max = PI / 2 if polar else LAT_MAX
     lowest = rng.random() < 0.10           # may put points exactly on the lowest lat / lon line (F20 territory)
     p_low = 0.3 if lowest else 0.0
     kinds = []
@@ -510,12 +568,12 @@ def gen_case(rng):
                 c = lons[-1]
             lo_, hi_ = c - span_lon, c + span_lon
         if i == 0:
-            cl = rng.uniform(max(glat[0], -LAT_MAX), min(glat[-1], LAT_MAX))
+            cl = rng.uniform(max(glat[0], -lat_max), min(glat[-1], lat_max))
         else:
             cl = lats[-1]
         # exact poles are outside the generated domain (see design.d/C04.md): all longitudes coincide there and
         # a computed intersection latitude one ulp beyond 90 degrees is outside pyproj's domain
-        la_lo, la_hi = max(cl - span_lat, -LAT_MAX), min(cl + span_lat, LAT_MAX)
+        la_lo, la_hi = max(cl - span_lat, -lat_max), min(cl + span_lat, lat_max)
         if i > 0 and r < 0.26 and not dateline:
             lats.append(pick_coord(rng, glat, la_lo, la_hi, 0.3, p_low)); lons.append(lons[-1])   # noqa: E702
             kinds.append('meridian'); continue                                                    # noqa: E702
@@ -527,10 +585,15 @@ def gen_case(rng):
             ia, ib = rng.randrange(len(glat)), rng.randrange(len(glon))
             if not lowest:
                 ia, ib = max(ia, 1), max(ib, 1)
-            if abs(glon[ib] - lons[-1]) < PI and abs(glat[ia]) <= LAT_MAX:
+            if abs(glon[ib] - lons[-1]) < PI and abs(glat[ia]) <= lat_max:
                 lats.append(glat[ia]); lons.append(glon[ib]); kinds.append('corner'); continue   # noqa: E702
-        lats.append(pick_coord(rng, glat, la_lo, la_hi, 0.25, p_low))
-        lons.append(pick_coord(rng, glon, lo_, hi_, 0.25, p_low))
+        if polar and rng.random() < 0.3:
+            lats.append(glat[-1] if (glat[-1] >= PI / 2 and (glat[0] > -PI / 2 or rng.random() < 0.5)) else glat[0])
+        else:
+            lats.append(pick_coord(rng, glat, la_lo, la_hi, 0.25, p_low))
+        lons.append(pick_coord(rng, glon, lo_, hi_, 0.6 if abs(lats[-1]) >= PI / 2 else 0.25, p_low))
+    if polar and any(abs(x) >= PI / 2 for x in lats):
+        kinds.append('pole')
     n = len(lats)
     alts = times = None
     if galt is not None and rng.random() < 0.85:
@@ -538,7 +601,11 @@ def gen_case(rng):
         alts = [pick_coord(rng, galt, None, None, 0.2, p0) for _ in range(n)]
     if gtime is not None and rng.random() < 0.85:
         p0 = 0.5 if rng.random() < 0.1 else 0.0
-        ts = sorted(pick_coord(rng, gtime, None, None, 0.15, 0.0) for _ in range(n))
+        ts = [pick_coord(rng, gtime, None, None, 0.15, 0.0) for _ in range(n)]
+        if rng.random() < 0.9:
+            ts.sort()
+        else:
+            kinds.append('times-not-ascending')      # the time cell is that of each segment's start point regardless
         if rng.random() < p0:
             ts[0] = gtime[0]
         times = ts
@@ -595,6 +662,10 @@ def case_features(case):
             f.add('on-corner')
         if la == glat[0] or lo == glon[0]:
             f.add('on-lowest-line')
+    if len(glat) == 2 or len(glon) == 2:
+        f.add('single-cell-axis')
+    if any(abs(x) == PI / 2 for x in case['lats']):
+        f.add('point-on-pole')
     if case['alts'] and case['galt'] and any(x == case['galt'][0] for x in case['alts'][:-1]):
         f.add('alt-on-lowest-line')
     if case['times'] and case['gtime'] and any(x == case['gtime'][0] for x in case['times'][:-1]):
@@ -613,10 +684,73 @@ def load_corpus(pid):
 # shared driver: implementation + model on a list of cases
 # ----------------------------------------------------------------------------------------------
 
-def evaluate(chk: Check, cases):
-    """-> list of dicts {case, out (instrumented impl output) | error, plain_ok, geo, vals}"""
+def ms_case(case):
+    """the same case with grid times / times as whole milliseconds (for the datetime64 differential run)"""
+    if case['times'] is None or case['gtime'] is None:
+        return None
+    gt = [float(round(x * 1000.0)) for x in case['gtime']]
+    if any(b_ <= a_ for a_, b_ in zip(gt[:-1], gt[1:])):
+        return None
+    return dict(case, gtime=gt, times=[float(round(x * 1000.0)) for x in case['times']])
+
+
+def f32(vals):
+    import numpy as np
+    return [float(np.float32(x)) for x in vals]
+
+
+def robustness_probes(case, st, iv, out):
+    """Regressions the main oracle cannot see on a single call.  -> list of descriptions (each a property failure:
+    the result of gridding must be a function of the numbers passed in, not of call history, array dtype or the
+    unit the time axis is given in)."""
+    probs = []
+    g = gridder(case)
+    first = run_impl(case, st, iv, g=g)
+    if not same_out(first, out):
+        probs.append('a fresh Gridder gives a different result for the same input')
+    run_impl(case, case['states'], case['ints'], g=g)
+    run_impl(case, st, iv, entry=TWIN, g=g)
+    again = run_impl(case, st, iv, g=g)
+    if not same_out(again, first):
+        probs.append('the same call on the same Gridder gives a different result the second time (state is carried between calls)')
+    # same numbers, other dtype for altitudes / times / variables
+    c32 = dict(case, alts=None if case['alts'] is None else f32(case['alts']),
+               times=None if case['times'] is None else f32(case['times']))
+    st32, iv32 = [f32(v) for v in st], [f32(v) for v in iv]
+    o32, o64 = run_impl(c32, st32, iv32, dtype='float32'), run_impl(c32, st32, iv32)
+    if not (all(same_out(o32[k], o64[k]) for k in ('lat', 'lon', 'alt', 'time', 'states'))
+            and len(o32['ints']) == len(o64['ints'])
+            and all(len(x) == len(y) and all(close(p_, q_, rel=2e-6, abs_=1e-30) for p_, q_ in zip(x, y))
+                    for x, y in zip(o32['ints'], o64['ints']))):
+        probs.append('passing altitudes / times / variables as float32 arrays (same numbers) changes the result '
+                     'beyond float32 rounding')
+    # time axis as datetime64
+    cm = ms_case(case)
+    if cm is not None:
+        if not same_out(run_impl(cm, st, iv, time_unit='ms'), run_impl(cm, st, iv)):
+            probs.append('passing the time axis as datetime64[ms] instead of the same numbers changes the result')
+    # latitudes / longitudes as float32: only gross properties (lengths, finiteness, never less, total within 0.1 %
+    # of the binary64 run)
+    if not any(abs(b_ - a_) > 3.0 for a_, b_ in zip(case['lons'][:-1], case['lons'][1:])) and \
+            all(abs(x) <= PI / 2 for x in f32(case['lats'])):      # float32(pi/2) > pi/2 is not a latitude
+        o32 = run_impl(case, st, iv, coord_dtype='float32')
+        n = len(o32['lat'])
+        if any(len(v) != n for v in o32['ints'] + o32['states'] + [o32['lon']]):
+            probs.append('float32 coordinates: output arrays of different lengths')
+        tot, ref = sum(o32['ints'][-1]), sum(out['ints'][-1])
+        nseg = len(case['lats']) - 1
+        if ref == ref and not (tot == tot and nseg * (1 - 1e-6) <= tot and abs(tot - ref) <= 1e-3 * ref):
+            probs.append(f'float32 coordinates: {nseg} unit segments are gridded to a total of {tot!r} '
+                         f'(binary64 coordinates: {ref!r})')
+    return probs
+
+
+def evaluate(chk: Check, cases, pid='C04'):
+    """-> list of dicts {case, out (instrumented impl output) | error, plain_ok, twin, probes, geo, vals}"""
     flags = detect_flags()
+    tflags = detect_flags(entry=TWIN)
     chk.notes['tree_behaviour'] = flags
+    chk.notes['tree_behaviour_twin'] = tflags
     res = []
     for case in cases:
         st, iv = instrumented(case)
@@ -625,10 +759,11 @@ def evaluate(chk: Check, cases):
             r['out'] = run_impl(case, st, iv)
             plain = run_impl(case, case['states'], case['ints'])
             o = r['out']
-            same = lambda a, b: json.dumps(a) == json.dumps(b)      # noqa: E731  (NaN-tolerant equality)
-            r['plain_ok'] = (same(plain['lat'], o['lat']) and same(plain['lon'], o['lon'])
-                             and same(plain['alt'], o['alt']) and same(plain['time'], o['time'])
-                             and same(plain['states'], o['states'][:-1]) and same(plain['ints'], o['ints'][:-2]))
+            r['plain_ok'] = (same_out(plain['lat'], o['lat']) and same_out(plain['lon'], o['lon'])
+                             and same_out(plain['alt'], o['alt']) and same_out(plain['time'], o['time'])
+                             and same_out(plain['states'], o['states'][:-1]) and same_out(plain['ints'], o['ints'][:-2]))
+            r['twin'] = run_impl(case, st, iv, entry=TWIN)
+            r['probes'] = robustness_probes(case, st, iv, o)
         except Exception as e:  # noqa: BLE001
             r['error'] = f'{type(e).__name__}: {e}'
         res.append(r)
@@ -639,13 +774,37 @@ def evaluate(chk: Check, cases):
             r['geo'] = None
             continue
         r['geo'] = parse_geometry(g)
-        r['dds'] = attach_dists(r['geo'])
+        r['dds'] = attach_dists(r['geo'], flags['clipd'])
         exprs.append(values_expr(r['geo'], r['dds'], r['ints'], flags))
         idxs.append(k)
     vals = chk.coq_eval(HEADER, exprs, shard=40, label='vals')
     for k, v in zip(idxs, vals):
         res[k]['vals'] = None if v is None else [[float(x) for x in var] for var in v]
+    # the public twin: where its output differs from grid_trajectory's (only possible while it is an inline copy with
+    # other switch values) the model is evaluated again with the twin's switches
+    need = [k for k, r in enumerate(res) if 'error' not in r and r['twin']['lat'] is not None
+            and not same_out(r['twin'], r['out'])]
+    if need and tflags != flags:
+        tg = chk.coq_eval(HEADER, [geometry_expr(res[k]['case'], res[k]['states'], tflags) for k in need], shard=40,
+                          label='tgeom')
+        ex2, id2 = [], []
+        for k, g in zip(need, tg):
+            if g is None:
+                continue
+            geo = parse_geometry(g)
+            res[k]['twin_geo'] = geo
+            res[k]['twin_dds'] = attach_dists(geo, tflags['clipd'])
+            ex2.append(values_expr(geo, res[k]['twin_dds'], res[k]['ints'], tflags))
+            id2.append(k)
+        tv = chk.coq_eval(HEADER, ex2, shard=40, label='tvals')
+        for k, v in zip(id2, tv):
+            res[k]['twin_vals'] = None if v is None else [[float(x) for x in var] for var in v]
     return res, flags
+
+
+def twin_view(r):
+    """the twin's output packaged like a result record, for the comparison functions"""
+    return {'out': r['twin'], 'geo': r.get('twin_geo'), 'vals': r.get('twin_vals'), 'ints': r['ints'], 'case': r['case']}
 
 
 def compare_values(r):
@@ -672,25 +831,41 @@ def compare_values(r):
 
 
 def run(chk: Check):
-    chk.rule = ('grids of 1-60 cells per axis (global degree grids, regional uniform and irregular grids; with/without '
-                'altitude and time axes); 2-9 trajectory points inside the grid: interior, exactly on grid lines, on '
-                'corners, on the lowest line, repeated points, legs along meridians / parallels, corner-to-corner legs, '
-                'southward / westward legs, one antimeridian crossing (both directions); 0-3 state and 0-3 integrated '
-                'variables (plus one instrumentation variable of each kind). non-trivial = some segment crosses at '
-                'least one grid line, is zero-length, or crosses the antimeridian')
-    chk.trusted += ['harness/c04.py: correspondence (model run inside Coq vs Gridder.grid_trajectory), generators, '
-                    'brute-force parametric oracle; python mirror of C04_Model.attach_dists',
-                    'pyproj/PROJ WGS-84 inverse geodesic: the oracle for the Section variable dist (hypotheses: '
-                    'non-negative, symmetric, triangle inequality, zero on equal points)',
-                    'numpy semantics of searchsorted/sort/repeat/NaN padding as unrolled to lists in C04_Model.v']
-    chk.assumptions += ['real-vs-binary64 gap of the model is not proved (bounded by the 1e-9 correspondence)',
-                        'slope overflow / NaN coordinates are not modelled (inputs are finite points inside the grid)',
-                        'C04 does not fix the latitude at which a crossing segment meets the antimeridian: the allowed '
-                        'excess is accepted for the straight line and for the as-coded bent line (C05 decides that)']
+    describe(chk)
     note_source(chk)
     chk.coq_props('props/C04_Props.v')
-    cases = load_corpus('C04') + [gen_case(chk.rng) for _ in range(chk.n(1000, 12000))]
+    translator_tie(chk, 'C04_Link.v')
+    cases = load_corpus('C04') + [gen_case(chk.rng) for _ in range(chk.n(1000, 8000))]
     check_cases(chk, cases)
+
+
+def describe(chk: Check):
+    chk.rule = ('grids of 1-60 cells per axis (global degree grids, regional uniform and irregular grids, single-cell axes; '
+                'with/without altitude and time axes); 2-9 trajectory points inside the grid: interior, exactly on grid lines, '
+                'on corners, on the lowest line, exactly on a pole (separate 6 % stream), repeated points, legs along '
+                'meridians / parallels, corner-to-corner legs, southward / westward legs, one antimeridian crossing (both '
+                'directions, both ends on +-pi), times ascending or not; 0-3 state and 0-3 integrated variables (plus '
+                'instrumentation). Every case goes through BOTH public entry points (grid_trajectory and '
+                'cells_touched_by_trajectory_with_state_and_integrated_variables) and through the robustness probes '
+                '(fresh vs reused Gridder, repeated call, inputs not mutated, float32 variables, float32 coordinates, '
+                'datetime64 time axis). non-trivial = some segment crosses at least one grid line, is zero-length, or '
+                'crosses the antimeridian')
+    chk.trusted += ['translator/c04_extract.py + translator/py2coq.py (regenerated kernels and conventions of gridding/grid.py)',
+                    'harness/c04.py (+ c05.py): correspondence (model run inside Coq vs both entry points), generators, '
+                    'brute-force parametric oracle, robustness probes; python mirror of C04_Model.attach_dists',
+                    'pyproj/PROJ WGS-84 inverse geodesic: the oracle for the Section variable dist (hypotheses: non-negative, '
+                    'triangle inequality); once FC04c is repaired dist is pyproj after clipping latitudes to +-pi/2',
+                    'numpy semantics of searchsorted/sort/repeat/NaN padding as unrolled to lists in C04_Model.v']
+    chk.assumptions += ['real-vs-binary64 gap of the model is not proved (bounded by the 1e-9 correspondence)',
+                        'slope overflow / NaN or infinite coordinates are not modelled (inputs are finite points inside the grid)',
+                        'grids are strictly increasing; points lie within [first line, last line] of every axis',
+                        'exact poles ARE generated (kind point-on-pole in input_distribution); what is excluded is only '
+                        'float32 coordinates whose rounding exceeds +-pi/2, and more than one antimeridian crossing '
+                        '(documented: empty / None result)',
+                        'float32 coordinates are checked only grossly (lengths, finiteness, never less, total within 0.1 % '
+                        'of the binary64 run); float32 variables to 2e-6 relative',
+                        'C04 does not fix the latitude at which a crossing segment meets the antimeridian: the allowed '
+                        'excess is accepted for the straight line and for the as-coded bent line (C05 decides that)']
 
 
 def check_cases(chk: Check, cases):
@@ -713,6 +888,10 @@ def check_cases(chk: Check, cases):
         probs = c04_oracle(case, r['out'])
         for desc, sig in probs:
             chk.fail(desc, {'case': case, 'impl_integrated': r['out']['ints']}, signature=sig)
+        for desc in r['probes']:
+            chk.fail(desc, {'case': case}, signature=None)
+        check_twin(chk, r, flags, c04_oracle, compare_values, 'C04_Model.values',
+                   lambda o: {'impl_integrated': o['ints']})
         if r.get('geo') is None:
             continue
         bad = compare_values(r)
@@ -720,6 +899,38 @@ def check_cases(chk: Check, cases):
             chk.broken('correspondence:C04_Model.values', bad, case)
         else:
             chk.traces_validated += 1
+
+
+def check_twin(chk: Check, r, flags, oracle, compare, what, extra):
+    """The public twin `cells_touched_by_trajectory_with_state_and_integrated_variables` goes through the same
+    oracle and correspondence.  Where its output equals grid_trajectory's nothing more is needed; where it differs
+    (only possible while it is an inline copy) the oracle is applied to it and the model, evaluated with the twin's
+    own switches, must reproduce it.  Findings at this site carry the suffix ':twin'."""
+    case, tw = r['case'], r['twin']
+    if tw['lat'] is None:
+        chk.count('twin:more-than-one-crossing->None')
+        if not any_multi_crossing(case):
+            chk.fail('[twin] returned None although the trajectory does not cross the antimeridian more than once',
+                     {'case': case, 'entry': TWIN}, signature=None)
+        return
+    if same_out(tw, r['out']):
+        chk.count('twin:identical-to-grid_trajectory')
+        return
+    chk.count('twin:differs-from-grid_trajectory')
+    for desc, sig in oracle(case, tw):
+        # findings located in the twin's own inline code get their own signature; those of the helpers both entry
+        # points share (fraction rule, cell index, length of sub-segments) keep theirs
+        if sig in (SIG_DL, SIG_Z):
+            sig = sig + ':twin'
+        chk.fail('[twin] ' + desc, {'case': case, 'entry': TWIN, **extra(tw)}, signature=sig)
+    tflags = chk.notes.get('tree_behaviour_twin')
+    if r.get('twin_geo') is not None:
+        bad = compare(twin_view(r))
+        if bad:
+            chk.broken(f'correspondence:{what} (twin)', bad, case)
+    elif tflags == flags:
+        chk.broken(f'correspondence:{what} (twin)',
+                   'the twin shows the same switch values as grid_trajectory but returns something else', case)
 
 
 def note_source(chk: Check):
@@ -736,9 +947,29 @@ def note_source(chk: Check):
         chk.broken('wrong-tree', f'AEIC.gridding.grid was imported from {src}, not from {common.REPO}/src')
 
 
+def translator_tie(chk: Check, link: str):
+    """Regenerate the numeric kernels / conventions of gridding/grid.py as Gallina text and re-check the link lemmas."""
+    from harness.common import REPO
+    from translator import c04_extract, py2coq
+    name = 'extract:gridding/grid.py'
+    try:
+        text = c04_extract.extract_c04(REPO)
+    except py2coq.Untranslatable as e:
+        chk.obligations.append({'name': name, 'ok': False})
+        chk.broken(name, str(e))
+        return False
+    chk.obligations.append({'name': name, 'ok': True})
+    if chk.coq_compile_gen('C04_Extracted', text) is None:
+        return False
+    chk.notes['twin_delegates'] = 'x_twin_delegates : bool := true' in text
+    chk.notes['dist_latitudes_clipped'] = 'x_clip_dist_lat : bool := true' in text
+    return chk.coq_link(link)
+
+
 def replay(chk: Check, rp):
     note_source(chk)
     chk.coq_props('props/C04_Props.v')
+    translator_tie(chk, 'C04_Link.v')
     case = (rp.get('case') or {}).get('case')
     if case:
         check_cases(chk, [case])
